@@ -126,7 +126,7 @@ def readme():
             ', '.join('%s x%d' % kv for kv in sorted((m.get('check') or {}).get('kinds', {}).items()))))
     with open(os.path.join(root, 'README.md'), 'w') as f:
         f.write('# Seeded changes (generated by tools/seedall.py - do not edit)\n\n'
-                'Each change keeps the repository\'s tests green, breaks its property only under the stated condition, and was verified in a\n'
+                'Each change keeps the repository\'s tests green (column "repo tests with change": the baseline is 7 failed, 302 passed, 4 errors; C16-r2 no longer\nmeets it at the final HEAD and is kept as a mutant only), breaks its property only under the stated condition, and was verified in a\n'
                 'scratch worktree of /repo (demo.py exits 0 without the change, non-zero with it). "caught" = `./check <property> --tier quick`\n'
                 'against the patched worktree exits 1 with VIOLATION lines of the listed kinds.\n\n'
                 '| change | file(s) | needs | demo confirms | repo tests with change | caught | violation kinds |\n|---|---|---|---|---|---|---|\n')
